@@ -66,6 +66,13 @@ replies client::connect(std::string_view hostname,
                         const std::optional<std::string_view> & username,
                         std::string_view password)
 {
+    /* Report invalid credentials before the connection is opened. */
+    if (username)
+    {
+        make_command("USER", username.value());
+        make_command("PASS", password);
+    }
+
     control_connection_.connect(hostname, port);
 
     notify_connected(hostname, port);
@@ -243,16 +250,16 @@ replies client::rename(std::string_view from_path, std::string_view to_path)
 {
     replies replies;
 
-    std::string command = make_command("RNFR", from_path);
+    /* Make both commands first: an invalid path is reported before anything is sent. */
+    std::string rnfr_command = make_command("RNFR", from_path);
+    std::string rnto_command = make_command("RNTO", to_path);
 
-    reply reply = process_command(command, replies);
+    reply reply = process_command(rnfr_command, replies);
 
     /* 350 Ready for destination name. */
     if (reply.get_code() == 350)
     {
-        command = make_command("RNTO", to_path);
-
-        process_command(command, replies);
+        process_command(rnto_command, replies);
     }
 
     return replies;
@@ -480,16 +487,16 @@ reply client::process_command(std::string_view command, replies & replies)
 
 reply client::process_login(std::string_view username, std::string_view password, replies & replies)
 {
+    /* Make both commands first: invalid credentials are reported before anything is sent. */
     std::string command = make_command("USER", username);
+    std::string pass_command = make_command("PASS", password);
 
     reply reply = process_command(command, replies);
 
     /* 331 Username okay, need password. */
     if (reply.get_code() == 331)
     {
-        command = make_command("PASS", password);
-
-        reply = process_command(command, replies);
+        reply = process_command(pass_command, replies);
     }
 
     if (reply.is_negative())
@@ -1062,6 +1069,14 @@ std::string client::make_command(std::string_view command, const std::optional<s
 
     if (argument)
     {
+        /* A command is a single line. An argument containing CR or LF would be
+         * transmitted as additional command lines.
+         */
+        if (argument->find_first_of("\r\n") != std::string_view::npos)
+        {
+            throw ftp_exception("Invalid argument of the %1% command: line breaks are not allowed.", command);
+        }
+
         result.append(" ");
         result.append(argument.value());
     }
